@@ -49,6 +49,7 @@ const (
 	_ROLZ_HASH_SEED       = 200002979
 	_ROLZ_MAX_BLOCK_SIZE  = 1 << 30 // 1 GB
 	_ROLZ_MIN_BLOCK_SIZE  = 64
+	_ROLZ_DST_MARGIN      = 256 // > output of one loop iteration + last literals + dispose
 	_ROLZ_PSCALE          = 0xFFFF
 	_ROLZ_TOP             = uint64(0x00FFFFFFFFFFFFFF)
 	_MASK_0_56            = uint64(0x00FFFFFFFFFFFFFF)
@@ -1156,6 +1157,11 @@ func (this *rolzCodec2) Forward(src, dst []byte) (uint, uint, error) {
 
 		// Next chunk
 		for srcIdx < sizeChunk {
+			if dstIdx > len(dst)-_ROLZ_DST_MARGIN {
+				// Incompressible input: the range coder is about to run past dst
+				return uint(startChunk + srcIdx), uint(dstIdx), errors.New("ROLZX codec forward transform skip: no compression")
+			}
+
 			re.setContext(_ROLZ_LITERAL_CTX, buf[srcIdx-1])
 			var key uint32
 
